@@ -143,6 +143,12 @@ impl Check for C07 {
                 run_history(ops, out);
             }
             out.count("fixed_boundary_histories", fixed.len() as u64);
+            // large chunk sizes x large messages: one chunk (or two) around 2^20, 2^21, 2^23, 2^24
+            for (size, len) in [(3_000_000u32, 2_000_000usize), (1_677_216, 1_677_217), (0x20_0000, 0x20_0001), (0x80_0000, 0x80_0001), (0xFF_FFFF, 16_777_215), (0x7FFF_FFFF, 9_000_000), (70_000, 16_777_215)] {
+                let ops = vec![Op::SetChunk { size, ts: 0 }, mk(9, 1, 5, len, false), mk(8, 1, 6, 3, false)];
+                run_history(&ops, out);
+                out.count("large_chunk_large_payload_histories", 1);
+            }
             return;
         }
         let big = tier == Tier::Thorough && k % 5000 == 17;
